@@ -29,6 +29,8 @@ pub struct Case {
     platform: Option<bool>, // None = omitted, Some(true) = linux, Some(false) = windows
     /// index (into the referenced ids) left out of the id->path map
     missing: Option<u16>,
+    /// the map knows only the referenced ids (so that "missing one id" can also mean an EMPTY map) instead of all ids
+    minimal_map: bool,
 }
 
 const IDS: [&str; 5] = ["acme/one", "two", "acme/deep/three.x", "four-4", "a"];
@@ -91,8 +93,9 @@ fn case_strategy() -> impl Strategy<Value = Case> {
         prop_oneof![3 => Just(".".to_string()), 1 => Just("./sub/dir".to_string()), 1 => Just("../sibling".to_string())],
         prop_oneof![Just(None), Just(Some(true)), Just(Some(false))],
         proptest::option::weighted(0.2, any::<u16>()),
+        any::<bool>(),
     )
-        .prop_map(|(src, deps, bp_uri, platform, missing)| Case { src, deps, bp_uri, platform, missing })
+        .prop_map(|(src, deps, bp_uri, platform, missing, minimal_map)| Case { src, deps, bp_uri, platform, missing, minimal_map })
 }
 
 fn dep_text(d: &Dep) -> String {
@@ -108,7 +111,7 @@ fn case_json(c: &Case) -> Value {
         Dep::Rel(s) => json!({"rel": s}),
         Dep::Abs(s) => json!({"abs": s}),
         Dep::Other(s) => json!({"other": s}),
-    }).collect::<Vec<_>>(), "bp_uri": c.bp_uri, "platform": c.platform, "missing": c.missing})
+    }).collect::<Vec<_>>(), "bp_uri": c.bp_uri, "platform": c.platform, "missing": c.missing, "minimal_map": c.minimal_map})
 }
 
 fn case_from_json(v: &Value) -> Case {
@@ -131,6 +134,7 @@ fn case_from_json(v: &Value) -> Case {
         bp_uri: v["bp_uri"].as_str().unwrap().to_string(),
         platform: v["platform"].as_bool(),
         missing: v["missing"].as_u64().map(|x| x as u16),
+        minimal_map: v["minimal_map"].as_bool().unwrap_or(false),
     }
 }
 
@@ -193,9 +197,12 @@ fn check(ctx: &Ctx, env: &Env, c: &Case) -> Check {
     };
     let mut map: BTreeMap<BuildpackId, PathBuf> = BTreeMap::new();
     for (i, id) in IDS.iter().enumerate() {
-        if Some(i) != missing_id {
+        if Some(i) != missing_id && (!c.minimal_map || referenced.contains(&i)) {
             map.insert(id.parse().unwrap(), PathBuf::from(PATHS[i]));
         }
+    }
+    if map.is_empty() && missing_id.is_some() {
+        ctx.class("missing-id-with-empty-map");
     }
 
     // classes
